@@ -312,6 +312,7 @@ def wigner_oracle(chk: common.Check, rng, tier: str) -> dict:
 
     from ampform.kinematics.angles import compute_wigner_angles, compute_wigner_rotation_matrix
     from ampform.kinematics.lorentz import create_four_momentum_symbols
+    from ampform.sympy._array_expressions import ArraySymbol
 
     g = np.random.default_rng(rng.getrandbits(63))
     n_ev = {"quick": 40, "thorough": 400}[tier]
@@ -330,8 +331,11 @@ def wigner_oracle(chk: common.Check, rng, tier: str) -> dict:
 
     tops = []
     for n in (3, 4):
-        for top in create_isobar_topologies(n):
+        for k, top in enumerate(create_isobar_topologies(n)):
+            # quick: both four-body shapes (cascade and two-resonance, chain lengths 1..3) without relabellings
             tops.append(top)
+            if tier == "quick" and n == 4:
+                continue
             ids = sorted(top.outgoing_edge_ids)
             perms = list(itertools.permutations(ids))[1:]
             for pm in rng.sample(perms, 1 if tier == "quick" else 4):
@@ -350,10 +354,16 @@ def wigner_oracle(chk: common.Check, rng, tier: str) -> dict:
         for sid in ids:
             w = compute_wigner_rotation_matrix(top, momenta, sid)
             ang = compute_wigner_angles(top, momenta, sid)
-            f = sp.lambdify(syms, [w.doit(), *[ang[s].doit() for s in sorted(ang, key=lambda s: s.name)]], "numpy", cse=True)
+            # the matrix is unfolded and lambdified ONCE; the three angle expressions of the real
+            # compute_wigner_angles are lambdified with the matrix sub-tree replaced by an array symbol and
+            # evaluated on that matrix (the real ArraySlice / atan2 / acos code runs, the big tree is not re-unfolded)
+            f = sp.lambdify(syms, w.doit(), "numpy", cse=True)
+            wsym = ArraySymbol("Wmat", shape=[])
+            fa = sp.lambdify([wsym], [ang[s].xreplace({w: wsym}).doit() for s in sorted(ang, key=lambda s: s.name)],
+                             "numpy")
             with np.errstate(all="ignore"):
-                W, al, be, ga = f(*arrays)
-            W = np.asarray(W, dtype=float)
+                W = np.asarray(f(*arrays), dtype=float)
+                al, be, ga = fa(W)
             stats["matrices"] += 1
             stats["events"] += n_ev
             n_chain = len(w.args) - 1
@@ -427,6 +437,19 @@ class C04Property:
                 else:
                     chk.broken_correspondence("fact", f"{k}: expected {v!r}, source gives {facts.get(k)!r}")
             chk.info("facts", facts)
+
+        # Props/C04Wigner.lean speaks about the explicit boost matrices of Gen/C08.lean: regenerate them from the
+        # working tree here as well, so that this run does not rely on C08's check having run before
+        if translated:
+            try:
+                from tools.props import C08 as _c08
+
+                (_c08.PROP.regenerate if hasattr(_c08.PROP, "regenerate") else _c08.regenerate)()
+            except core.Untranslatable as e:
+                chk.broken_correspondence("translator (Gen/C08 for the Wigner-rotation layer)", f"source no longer translatable: {e}")
+            except Exception as e:  # noqa: BLE001
+                chk.broken_correspondence("translator (Gen/C08 for the Wigner-rotation layer)",
+                                          "".join(traceback.format_exception_only(type(e), e))[-600:])
 
         # ---- proofs (kernel re-checks every theorem against the regenerated definitions)
         if translated:
